@@ -322,6 +322,66 @@ fn test(c: &Case, st: &mut Stats) -> TestResult {
             }
         }
     }
+    // the error responses policing returns are built by public constructors that can also be called
+    // directly (a server that polices by hand); they owe the same: class, the request's method and id,
+    // the ERROR-CODE, the list, and a serialisation that parses back
+    if (c.req_sel >> 60) & 1 == 1 {
+        let listed: Vec<AttributeType> = if unknown.is_empty() { req.iter().take(5).copied().collect() } else { unknown.iter().map(|t| AttributeType::new(*t)).collect() };
+        let outs = [
+            ("Message::bad_request", 3u8, Some(400u16), guard(|| Message::bad_request(&msg).build())),
+            ("Message::unknown_attributes", 3, Some(420), guard(|| Message::unknown_attributes(&msg, &listed).build())),
+            ("Message::builder_error", 3, None, guard(|| Message::builder_error(&msg).build())),
+            ("Message::builder_success", 2, None, guard(|| Message::builder_success(&msg).build())),
+        ];
+        for (what, class, code, out) in outs {
+            let out = out.map_err(|p| Fail::new("c16-panic", format!("{} panicked on a request: {}", what, p)))?;
+            let RefParse::Accept(rr) = refstun::parse(&out) else {
+                return Err(Fail::new("c16-response", format!("{} does not serialise to a well-formed message: {}", what, hex_short(&out))));
+            };
+            let om = Message::from_bytes(&out).map_err(|e| Fail::new("c16-response", format!("{}: the response does not parse back: {}", what, refattrs::err_name(&e))))?;
+            let otid: u128 = om.transaction_id().into();
+            ensure!(
+                rr.class == class && class_num(om.class()) == class && rr.method == r.method && om.method() == r.method && rr.tid == r.tid && otid == r.tid,
+                "c16-response",
+                "{}: response has class {} method {:#x} id {:#x} (read back {:#x}); the request has method {:#x} id {:#x}",
+                what,
+                rr.class,
+                rr.method,
+                rr.tid,
+                otid,
+                r.method,
+                r.tid
+            );
+            if let Some(code) = code {
+                let ec_ref = rr.first_exposed(Kind::ErrorCode.code()).map(|a| refattrs::decode(Kind::ErrorCode, a.value(&out), 0));
+                ensure!(
+                    matches!(&ec_ref, Some(refattrs::Verdict::Accept(refattrs::Fields::ErrorCode { code: c2, .. })) if *c2 == code),
+                    "c16-code",
+                    "{}: ERROR-CODE decodes to {:?}, expected {}",
+                    what,
+                    ec_ref,
+                    code
+                );
+                let ua = rr.first_exposed(Kind::UnknownAttributes.code());
+                if code == 420 && !listed.is_empty() {
+                    let v = ua.map(|a| a.value(&out).to_vec()).unwrap_or_default();
+                    let got: Vec<u16> = v.chunks_exact(2).map(|c| u16::from_be_bytes([c[0], c[1]])).collect();
+                    let want: Vec<u16> = dedup_keep_order(&listed.iter().map(|t| t.value()).collect::<Vec<_>>());
+                    ensure!(
+                        v.len() % 2 == 0 && dedup_keep_order(&got) == want,
+                        "c16-unknown-list",
+                        "{} with {:04x?}: UNKNOWN-ATTRIBUTES lists {:04x?}",
+                        what,
+                        want,
+                        got
+                    );
+                } else {
+                    ensure!(ua.is_none(), "c16-unknown-list", "{}: the response carries UNKNOWN-ATTRIBUTES although none was asked for", what);
+                }
+            }
+        }
+        st.class("response constructors called directly (bad_request, unknown_attributes, builder_error, builder_success)");
+    }
     if all_types.len() >= 2 && (!supported.is_empty() || !required.is_empty()) {
         st.nontrivial(digest(&(&bytes, &supported, &required)));
         st.sample("policing", 3, || json!({"exposed": exposed, "supported": supported, "required": required, "verdict": want}));
